@@ -232,6 +232,55 @@ class Executor3(Executor2):
             return self.member(st, container, item.t)
         return Executor2.contains(self, st, container, item, ln)
 
+    # ---- set(<iterable>) where the iterable is a reference list (or an object whose iteration the suite names as one):
+    # a set of references S with  S[at(L, j)] for every 0 <= j < len(L)  and, for every member r, a witness position idx(r)
+    def bi_set(self, e, st):
+        if len(e.args) != 1 or e.keywords:
+            if self.lenient:
+                return self.opaque()
+            raise Unsupported("set() with %d arguments" % len(e.args))
+        v = self.ev(e.args[0], st)
+        lv = None
+        if v.kind == "reflist":
+            lv = v
+        elif v.kind == "ref" and v.cls is not None:
+            for cname in self._mro(v.cls):
+                view = self.iter_views.get(cname)
+                if view is not None:
+                    it = ast.copy_location(ast.Attribute(value=e.args[0], attr=view, ctx=ast.Load()), e)
+                    ast.fix_missing_locations(it)
+                    lv = self.ev(it, st)
+                    break
+        if lv is None or lv.kind != "reflist":
+            if self.lenient:
+                return self.opaque()
+            raise Unsupported("set() of %s" % v.kind)
+        el, n, _, _ = self._rl(st, lv)
+        k = self._nf()
+        S = z3.Const("set!%d" % k, z3.ArraySort(Ref, z3.BoolSort()))
+        idx = z3.Function("setidx!%d" % k, Ref, z3.IntSort())
+        j = z3.Const("sj!%d" % k, z3.IntSort())
+        r = z3.Const("sr!%d" % k, Ref)
+        st.assume(z3.ForAll([j], z3.Implies(z3.And(0 <= j, j < n), z3.Select(S, z3.Select(el, j)))))
+        st.assume(z3.ForAll([r], z3.Implies(z3.Select(S, r), z3.And(0 <= idx(r), idx(r) < n, z3.Select(el, idx(r)) == r))))
+        return SV("set:ref", S, cls=lv.cls)
+
+    def bi_tuple(self, e, st):
+        if len(e.args) == 1 and not e.keywords:
+            probe = st.copy()
+            try:
+                v = self.ev(e.args[0], probe)
+            except Unsupported:
+                v = None
+            if v is not None and (v.kind.startswith("keysnap:") or (v.kind.startswith("map:") and isinstance(v.x, tuple))):
+                return self.bi_list(e, st)   # tuple(d.keys()): the keys d has NOW
+        b = getattr(Executor2, "bi_tuple", None)
+        if b is not None:
+            return b(self, e, st)
+        if self.lenient:
+            return self.opaque()
+        raise Unsupported("tuple() at line %s" % getattr(e, "lineno", "?"))
+
     # ---- iterators over reference lists: iter(L) is (a snapshot of L, a position); next(it) rebinds the NAME holding it
     def bi_iter(self, e, st):
         v = self.ev(e.args[0], st)
@@ -338,7 +387,7 @@ class Executor3(Executor2):
         return Executor2.subscript_other(self, e, st, base)
 
     def assign_subscript(self, st, target, v, ln):
-        base = self.ev(target.value, st)
+        base = self.as_container(st, self.ev(target.value, st), ln)
         if base.kind == "reflist":
             idx = self.ev(target.slice, st)
             el, n, _, _ = self._rl(st, base)
